@@ -62,6 +62,10 @@ sc_io_sink_new (int iotype, int iomode, int ioencode, ...)
     if (sink->mode == SC_IO_MODE_WRITE) {
       sc_array_resize (sink->buffer, 0);
     }
+    else {
+      /* append behind the present content of the buffer */
+      sink->buffer_bytes = sink->buffer->elem_count * sink->buffer->elem_size;
+    }
   }
   else if (iotype == SC_IO_TYPE_FILENAME) {
     const char         *filename = va_arg (ap, const char *);
